@@ -100,7 +100,7 @@ BASES = [
     ("root", "secret/back"),
     ("root", "alt/sublink/.."),
 ]
-TENSOR_ENTRIES = ["numpy", "asarray", "tobytes", "tofile_bytesio", "tofile_real", "tofile_nocfr", "load_to_model", "convert_from_external", "resave", "size0_numpy", "size0_tofile"]
+TENSOR_ENTRIES = ["numpy", "asarray", "tobytes", "tofile_bytesio", "tofile_real", "tofile_nocfr", "load_to_model", "convert_from_external", "resave", "size0_numpy", "size0_tofile", "size0_tobytes"]
 MODEL_PATHS = [
     ("root", "{ROOT}/model/m.onnx"),
     ("root", "model/m.onnx"),
@@ -399,7 +399,7 @@ def _tensor_entry(entry: str, t, root: str, seam) -> bytes:
         return t.numpy().tobytes()
     if entry == "asarray":
         return np.asarray(t).tobytes()
-    if entry == "tobytes":
+    if entry in ("tobytes", "size0_tobytes"):
         return bytes(t.tobytes())
     if entry in ("tofile_bytesio", "size0_tofile"):
         b = io.BytesIO()
@@ -596,7 +596,7 @@ def _run(case: dict, root: str, res: dict) -> None:
                         got = t.numpy().tobytes()
                     elif entry == "asarray":
                         got = np.asarray(t).tobytes()
-                    elif entry == "tobytes":
+                    elif entry in ("tobytes", "size0_tobytes"):
                         got = bytes(t.tobytes())
                     elif entry in ("tofile_bytesio", "size0_tofile"):
                         b = io.BytesIO()
